@@ -121,6 +121,8 @@ type lCase struct {
 	Univ  []string `json:"univ"`  // names of the universe underneath, ascending (refs: referrer ids by digest)
 	Start string   `json:"start"` // start string as the caller passes it
 	K     int      `json:"k"`     // the consumer declines at its K-th call (0: never)
+	// stop points of the runs of the listing value (the first is K); empty: chosen by run
+	Passes []int `json:"passes,omitempty"`
 }
 
 const (
@@ -472,6 +474,114 @@ func (lr *lRunner) drop() {
 	}
 }
 
+// lPass is one run of a listing value against a consumer that declines at its k-th call.
+type lPass struct {
+	k       int
+	calls   []ev
+	after   int
+	runaway bool
+	// compact form (large universes): maximal runs of consecutive ranks, error calls
+	compact bool
+	runs    [][2]int
+	errs    [][]string
+	n       int
+	stopped bool
+}
+
+func (p *lPass) consume(rank func(string) int, hardCap int) func(string, error) bool {
+	return func(name string, err error) bool {
+		if p.stopped {
+			p.after++ // the iterator called again although told to stop / after an error
+			return false
+		}
+		if p.n >= hardCap {
+			p.runaway = true
+			p.stopped = true
+			return false
+		}
+		p.n++
+		if err != nil {
+			call := ev{}
+			observeErr(call, err)
+			delete(call, "ok")
+			call["e"] = "err"
+			call["x"] = 0
+			call["name"] = ""
+			if p.compact {
+				p.errs = append(p.errs, call["is"].([]string))
+			} else {
+				p.calls = append(p.calls, call)
+			}
+			p.stopped = true
+		} else {
+			x := rank(name)
+			if p.compact {
+				if k := len(p.runs); k > 0 && p.runs[k-1][1]+1 == x {
+					p.runs[k-1][1] = x
+				} else {
+					p.runs = append(p.runs, [2]int{x, x})
+				}
+			} else {
+				p.calls = append(p.calls, ev{"e": "item", "x": x, "name": name, "is": []string{}, "code": "", "status": 0})
+			}
+		}
+		if p.n == p.k {
+			p.stopped = true
+			return false
+		}
+		// after an error keep accepting: a conforming iterator stops by itself
+		return true
+	}
+}
+
+// listing obtains the listing value ONCE and returns a function that runs it.
+func lListing(ctx context.Context, top ociregistry.Interface, kind, start string) func(func(string, error) bool) {
+	switch kind {
+	case "repos":
+		seq := top.Repositories(ctx, start)
+		return func(f func(string, error) bool) { seq(f) }
+	case "tags":
+		seq := top.Tags(ctx, lRepo, start)
+		return func(f func(string, error) bool) { seq(f) }
+	}
+	seq := top.Referrers(ctx, lRepo, lSubject.dig, "")
+	return func(f func(string, error) bool) {
+		seq(func(d ociregistry.Descriptor, err error) bool { return f(string(d.Digest), err) })
+	}
+}
+
+// passes runs one listing value once per stop point; the requests seen while the value was
+// created belong to the first run.  It returns the panic value, if the code panicked.
+func (st *lStack) passes(kind, start string, ks []int, rank func(string) int, hardCap int, compact bool) (out []ev, panicked any) {
+	ctx, cancel := context.WithTimeout(context.Background(), 30*time.Second)
+	defer cancel()
+	st.take()
+	var run func(func(string, error) bool)
+	for i, k := range ks {
+		p := &lPass{k: k, compact: compact, calls: []ev{}, runs: [][2]int{}, errs: [][]string{}}
+		panicked = func() (pv any) {
+			defer func() { pv = recover() }()
+			if i == 0 {
+				run = lListing(ctx, st.top, kind, start)
+			}
+			run(p.consume(rank, hardCap))
+			return nil
+		}()
+		st.env.quiesce()
+		e := ev{"k": k, "reqs": st.take(), "after": p.after, "runaway": p.runaway}
+		if compact {
+			e["runs"], e["errs"], e["ncalls"] = p.runs, p.errs, p.n
+		} else {
+			e["calls"] = p.calls
+		}
+		out = append(out, e)
+		if panicked != nil {
+			break
+		}
+	}
+	return out, panicked
+}
+
 func (lr *lRunner) run(c *lCase) error {
 	st, err := lr.stackFor(c)
 	if err != nil {
@@ -481,59 +591,32 @@ func (lr *lRunner) run(c *lCase) error {
 	if c.Univ == nil {
 		c.Univ = []string{}
 	}
+	if len(c.Passes) == 0 {
+		// the same listing value is run again, completely; random cases a third time
+		c.Passes = []int{c.K, 0}
+		if c.Src == "rand" {
+			c.Passes = append(c.Passes, 2)
+		}
+	}
+	c.Passes[0] = c.K
 	e := ev{"op": "list", "src": c.Src, "kind": c.Kind, "k": c.K, "node": c.Node.abstract(), "stack": c.Node.String(),
-		"univ": c.Univ, "start": c.Start, "a": listPos(top, c.Start), "usize": len(top)}
+		"univ": c.Univ, "start": c.Start, "a": listPos(top, c.Start), "usize": len(top), "passes": c.Passes}
 	if c.Kind == "refs" {
 		e["a"] = 0
 	}
 	lr.out.Encode(ev{"op": "reset", "case": lr.nCases})
 	lr.nCases++
 	lr.byKind[c.Kind]++
-	calls := []ev{}
-	after := 0
-	stopped := false
-	runaway := false
-	hardCap := len(c.Univ) + 8
-	rank := map[string]int{}
+	ranks := map[string]int{}
 	for i, s := range top {
-		rank[s] = i + 1
+		ranks[s] = i + 1
 	}
-	consume := func(name string, err error) bool {
-		if stopped {
-			after++ // the iterator called again although told to stop / after an error
-			return false
+	rank := func(name string) int {
+		if x, ok := ranks[name]; ok {
+			return x
 		}
-		if len(calls) >= hardCap {
-			runaway = true
-			stopped = true
-			return false
-		}
-		call := ev{}
-		if err != nil {
-			observeErr(call, err)
-			delete(call, "ok")
-			call["e"] = "err"
-			call["x"] = 0
-			call["name"] = ""
-			stopped = true
-		} else {
-			x, ok := rank[name]
-			if !ok {
-				x = -1
-			}
-			call = ev{"e": "item", "x": x, "name": name, "is": []string{}, "code": "", "status": 0}
-		}
-		calls = append(calls, call)
-		if len(calls) == c.K {
-			stopped = true
-			return false
-		}
-		// after an error keep accepting: a conforming iterator stops by itself
-		return true
+		return -1
 	}
-	ctx, cancel := context.WithTimeout(context.Background(), 20*time.Second)
-	defer cancel()
-	st.take()
 	// far above what any correct listing needs (a unifier in front of a paged member drains
 	// it once per request of the hop above: hops multiply)
 	st.cap = 4
@@ -541,31 +624,108 @@ func (lr *lRunner) run(c *lCase) error {
 		st.cap *= len(c.Univ) + 3
 	}
 	st.cap = min(st.cap, 50000) + 50
-	panicked := func() (p any) {
-		defer func() { p = recover() }()
-		switch c.Kind {
-		case "repos":
-			st.top.Repositories(ctx, c.Start)(consume)
-		case "tags":
-			st.top.Tags(ctx, lRepo, c.Start)(consume)
-		case "refs":
-			st.top.Referrers(ctx, lRepo, lSubject.dig, "")(func(d ociregistry.Descriptor, err error) bool {
-				return consume(string(d.Digest), err)
-			})
-		}
-		return nil
-	}()
-	st.env.quiesce()
-	e["reqs"] = st.take()
-	e["calls"] = calls
-	e["after"] = after
-	e["runaway"] = runaway
+	ps, panicked := st.passes(c.Kind, c.Start, c.Passes, rank, len(c.Univ)+8, false)
+	for k, v := range ps[0] {
+		e[k] = v
+	}
+	more := []ev{}
+	if panicked == nil {
+		more = ps[1:]
+	}
+	e["more"] = more
 	if panicked != nil {
 		e["op"] = "panic"
 		e["panic"] = fmt.Sprint(panicked)
+		e["inpass"] = len(ps)
 		lr.drop() // the stack may be in any state
 	}
 	return lr.out.Encode(e)
+}
+
+// runBig lists large universes (more items than ociserver's internal page bound of 10000)
+// through one hop: m tags / repositories t00001..., every (page size, Link) given, from
+// several start points, each listing value run several times.  The consumer calls are
+// recorded as maximal runs of consecutive ranks.
+func (lr *lRunner) runBig(kind string, m int, pages []int, replay *lBigCase) error {
+	lr.drop()
+	univ := make([]string, m)
+	elems := make([]int, m)
+	ranks := make(map[string]int, m)
+	for i := range univ {
+		univ[i] = fmt.Sprintf("t%05d", i+1)
+		elems[i] = i + 1
+		ranks[univ[i]] = i + 1
+	}
+	rank := func(name string) int {
+		if x, ok := ranks[name]; ok {
+			return x
+		}
+		return -1
+	}
+	st := &lStack{env: &stackEnv{}}
+	defer func() { st.env.close() }()
+	memIface, _, err := st.env.build("mem")
+	if err != nil {
+		return err
+	}
+	if err := lPopulate(st.env.mems[0], kind, &lNode{T: "mem", S: elems}, univ, "", nil); err != nil {
+		return err
+	}
+	one := func(page int, link bool, start string, ks []int) error {
+		opts := fmt.Sprintf("page%d", page)
+		if !link {
+			opts += "+nolink"
+		}
+		st.env.wrapHandler = func(h http.Handler) http.Handler { return st.recorder(1, univ, h) }
+		top, err := st.node("http:"+opts+"(mem)", memIface)
+		if err != nil {
+			return err
+		}
+		st.top = top
+		st.cap = m + 50
+		node := &lNode{T: "http", Hop: 1, N: page, Link: link, X: &lNode{T: "mem"}}
+		lr.out.Encode(ev{"op": "reset", "case": lr.nCases})
+		lr.nCases++
+		lr.byKind["big:"+kind]++
+		ps, panicked := st.passes(kind, start, ks, rank, m+8, true)
+		e := ev{"op": "biglist", "src": "big", "kind": kind, "m": m, "node": node.abstract(), "stack": node.String(),
+			"start": start, "a": listPos(univ, start), "ks": ks, "passes": ps}
+		if panicked != nil {
+			e["op"] = "panic"
+			e["panic"] = fmt.Sprint(panicked)
+		}
+		return lr.out.Encode(e)
+	}
+	if replay != nil {
+		return one(replay.Node.N, replay.Node.Link, replay.Start, replay.Ks)
+	}
+	for i, page := range pages {
+		for _, link := range []bool{true, false} {
+			// from the beginning, and from a point that leaves exactly 10000 / fewer items
+			starts := []string{"", univ[m-10001], univ[0] + "+&x"}
+			if i%2 == 1 {
+				starts = []string{"", univ[m-10000] + "%20"}
+			}
+			for j, start := range starts {
+				ks := []int{0, 0}
+				if j == 0 {
+					ks = []int{0, 10000, 0}
+				}
+				if err := one(page, link, start, ks); err != nil {
+					return err
+				}
+			}
+		}
+	}
+	return nil
+}
+
+type lBigCase struct {
+	Kind  string `json:"kind"`
+	M     int    `json:"m"`
+	Node  *lNode `json:"node"`
+	Start string `json:"start"`
+	Ks    []int  `json:"ks"`
 }
 
 // ---------------------------------------------------------------- concretising TLC configurations
@@ -869,6 +1029,7 @@ func listCmd(args []string) error {
 	maxU := fs.Int("maxu", 24, "largest universe of a random case")
 	cfgs := fs.String("cfgs", "", "file with one configuration exported by OciListMC per line")
 	big := fs.Int("big", 0, "also list this many tags with the default page size (0: no)")
+	huge := fs.Bool("huge", false, "also list universes of more than 10000 items (compact events)")
 	replay := fs.String("replay", "", "re-execute the cases of a trace / replay file")
 	out := fs.String("out", "", "trace file")
 	fs.Parse(args)
@@ -910,6 +1071,13 @@ func listCmd(args []string) error {
 			}
 			if err := json.Unmarshal(line, &c); err != nil {
 				return err
+			}
+			if c.Op == "biglist" || c.Op == "panic" && c.Src == "big" {
+				var b lBigCase
+				if err := json.Unmarshal(line, &b); err != nil {
+					return err
+				}
+				return lr.runBig(b.Kind, b.M, nil, &b)
 			}
 			if c.Op != "list" && c.Op != "panic" {
 				return nil
@@ -960,6 +1128,15 @@ func listCmd(args []string) error {
 			if err := lr.run(c); err != nil {
 				return err
 			}
+		}
+	}
+	if *huge {
+		// ociserver bounds a page at 10000 items when no usable n is given
+		if err := lr.runBig("tags", 10001, []int{10000, 10001, 20000}, nil); err != nil {
+			return err
+		}
+		if err := lr.runBig("repos", 10003, []int{10001, 0}, nil); err != nil {
+			return err
 		}
 	}
 	sum, _ := json.Marshal(ev{"cases": lr.nCases, "kinds": lr.byKind})
